@@ -127,7 +127,8 @@ def partial_model(ctx, before, geo, op, case):
                 V('surfaces', 'column %r fitted surface %r' % (c.name, c.surface))
                 break
             below = [b for b in bounds if b < c.surface - 1e-9]
-            if op[2] > 0 and below and c.surface - below[-1] < op[2] - 1e-9 and below[-1] > bounds[0]:
+            on_boundary = any(abs(b - c.surface) <= 1e-9 for b in bounds)      # a whole layer may be thinner than the tolerance
+            if op[2] > 0 and below and not on_boundary and c.surface - below[-1] < op[2] - 1e-9 and below[-1] > bounds[0]:
                 V('surfaces', 'column %r: top block %.6g thick after fit_surface(layer_snap=%r)' % (c.name, c.surface - below[-1], op[2]))
                 break
     elif k == 'bad_centre+check_fix':
